@@ -188,101 +188,111 @@ theorem step_now (hs : step cfg g f s e = some s') : s'.now = s.now + 1 := by
 
 /-! ### counters: `pend`, `decIff`, `idleIff` -/
 
-theorem lt_of_getElem? {l : List Nat} {i x : Nat} (h : l[i]? = some x) : i < l.length := by
-  obtain ⟨h', _⟩ := List.getElem?_eq_some_iff.mp h
-  exact h'
+theorem lt_of_getElem? {l : List Nat} {i x : Nat} (h : l[i]? = some x) : i < l.length :=
+  getElem?_lt h
+
+theorem exists_dec_of_not (h : ¬ ∀ a t, e ≠ .dec a t) : ∃ a t, e = .dec a t := by
+  false_or_by_contra
+  rename_i hne
+  exact h (fun a t h' => hne ⟨a, t, h'⟩)
+
+/-- what a decrement does to `passed`: entry `(a, k)` becomes passed, nothing else changes -/
+theorem dec_passed_upd {ph : Nat → Phase} {a k : Nat} {v : Phase} (hph : ph a = .trig k)
+    (hv : ∀ i, v.passed i = decide (i ≤ k)) :
+    ((upd ph a v) a).passed k = true ∧
+    ∀ d i, ¬ (d = a ∧ i = k) → ((upd ph a v) d).passed i = (ph d).passed i := by
+  refine ⟨by rw [upd_same, hv]; simp, ?_⟩
+  intro d i hne
+  by_cases hda : d = a
+  · subst hda
+    rw [upd_same, hv, hph]
+    have : i ≠ k := fun h => hne ⟨rfl, h⟩
+    simp only [Phase.passed, decide_eq_decide]; omega
+  · rw [upd_other _ _ _ _ hda]
+
+/-- the target of the decrement that reached zero goes from `idle` to `queued`: `passed`
+does not see the difference -/
+theorem passed_upd_queued {ph : Nat → Phase} {t : Nat} (hid : ph t = .idle) :
+    ∀ d i, ((upd ph t .queued) d).passed i = (ph d).passed i := by
+  intro d i
+  by_cases hdt : d = t
+  · subst hdt; rw [upd_same, hid]; rfl
+  · rw [upd_other _ _ _ _ hdt]
 
 theorem inv_pend (hw : WF g) (hi : Inv cfg g f s) (hs : step cfg g f s e = some s') :
-    ∀ t, t ≤ g.n → s'.pending t = (g.deps t).countP (fun d => (s'.decAt d t).isNone) := by
+    ∀ t, t ≤ g.n → s'.pending t = openEdges g (passedP s'.phase) t := by
   by_cases he : ∀ a t, e ≠ .dec a t
   · have hq := frameQ_of_step hs he
-    intro t ht; rw [hq.pending, hq.decAt]; exact hi.pend t ht
-  · have : ∃ a t, e = .dec a t := by
-      false_or_by_contra
-      rename_i hne
-      exact he (fun a t h => hne ⟨a, t, h⟩)
-    obtain ⟨a, t, rfl⟩ := this
+    intro t ht; rw [hq.pending, hi.pend t ht]
+    symm; apply openEdges_congr; intro d i _ hil; exact hq.passed d i hil
+  · obtain ⟨a, t, rfl⟩ := exists_dec_of_not he
     obtain ⟨k, hph, hk, hh⟩ := step_dec.mp hs
     obtain ⟨ha, ht, hat, hlt, hnone, hpos, hidle⟩ := dec_facts hw hi hph hk
-    have hflip : (g.deps t).countP (fun d => (s.decAt d t).isNone) =
-        (g.deps t).countP (fun d => (upd2 s.decAt a t (some s.now) d t).isNone) + 1 := by
-      apply countP_flip (hw.deps_nodup t ht) hat
-      · simp [hnone]
-      · simp [upd2_apply]
-      · intro x hx; simp [upd2_apply, hx]
-    have hother : ∀ t', t' ≠ t → ∀ d, upd2 s.decAt a t (some s.now) d t' = s.decAt d t' := by
-      intro t' ht' d; simp [upd2_apply, ht']
-    have hpt := hi.pend t ht
+    have hkl := getElem?_lt hk
+    have h0 : passedP s.phase a k = false := by simp [passedP, hph, Phase.passed]
     intro t' ht'
+    have hold := hi.pend t' ht'
     rcases hh with ⟨hp1, _, rfl⟩ | ⟨hp1, rfl⟩
     · dsimp only
+      obtain ⟨h1, hoth⟩ := dec_passed_upd (v := .sending k) hph (fun i => rfl)
+      have hat' : (upd s.phase a (.sending k)) t = .idle := by
+        rw [upd_other _ _ _ _ (by omega)]; exact hidle
+      have hq := passed_upd_queued hat'
+      have := openEdges_flip (P := passedP s.phase)
+        (P' := passedP (upd (upd s.phase a (.sending k)) t .queued)) ha hkl h0
+        (by simp only [passedP]; rw [hq]; exact h1)
+        (by intro d i _ _ hne; simp only [passedP]; rw [hq]; exact hoth d i hne) t'
+      rw [hk] at this
       by_cases htt : t' = t
-      · subst htt; rw [upd_same]; omega
-      · rw [upd_other _ _ _ _ htt, hi.pend t' ht']
-        apply List.countP_congr
-        intro d _; rw [hother t' htt d]
+      · subst htt; rw [upd_same]; simp at this; omega
+      · rw [upd_other _ _ _ _ htt]
+        have hne : ¬ (some t = some t') := by intro h; exact htt (Option.some.inj h).symm
+        simp [hne] at this; omega
     · dsimp only
+      obtain ⟨h1, hoth⟩ := dec_passed_upd (v := .trig (k + 1)) hph
+        (by intro i; simp only [Phase.passed, decide_eq_decide]; omega)
+      have := openEdges_flip (P := passedP s.phase)
+        (P' := passedP (upd s.phase a (.trig (k + 1)))) ha hkl h0
+        (by simp only [passedP]; exact h1)
+        (by intro d i _ _ hne; simp only [passedP]; exact hoth d i hne) t'
+      rw [hk] at this
       by_cases htt : t' = t
-      · subst htt; rw [upd_same]; omega
-      · rw [upd_other _ _ _ _ htt, hi.pend t' ht']
-        apply List.countP_congr
-        intro d _; rw [hother t' htt d]
+      · subst htt; rw [upd_same]; simp at this; omega
+      · rw [upd_other _ _ _ _ htt]
+        have hne : ¬ (some t = some t') := by intro h; exact htt (Option.some.inj h).symm
+        simp [hne] at this; omega
 
 theorem inv_decIff (hw : WF g) (hi : Inv cfg g f s) (hs : step cfg g f s e = some s') :
-    ∀ d, d ≤ g.n → ∀ i t, (g.trig d)[i]? = some t →
-      (s'.decAt d t).isSome = (s'.phase d).passed i := by
+    ∀ d, d ≤ g.n → ∀ i, i < (g.trig d).length →
+      (s'.decAt d i).isSome = (s'.phase d).passed i := by
   by_cases he : ∀ a t, e ≠ .dec a t
   · have hq := frameQ_of_step hs he
-    intro d hd i t hk
-    rw [hq.decAt, hq.passed d i (lt_of_getElem? hk)]; exact hi.decIff d hd i t hk
-  · have : ∃ a t, e = .dec a t := by
-      false_or_by_contra
-      rename_i hne
-      exact he (fun a t h => hne ⟨a, t, h⟩)
-    obtain ⟨a, t, rfl⟩ := this
+    intro d hd i hil
+    rw [hq.decAt, hq.passed d i hil]; exact hi.decIff d hd i hil
+  · obtain ⟨a, t, rfl⟩ := exists_dec_of_not he
     obtain ⟨k, hph, hk, hh⟩ := step_dec.mp hs
     obtain ⟨ha, ht, hat, hlt, hnone, hpos, hidle⟩ := dec_facts hw hi hph hk
-    intro d hd i t' hk'
-    have hold := hi.decIff d hd i t' hk'
-    -- the decAt side
-    have hdec : (upd2 s.decAt a t (some s.now) d t').isSome =
-        if d = a ∧ t' = t then true else (s.decAt d t').isSome := by
+    intro d hd i hil
+    have hold := hi.decIff d hd i hil
+    have hdec : (upd2 s.decAt a k (some s.now) d i).isSome =
+        if d = a ∧ i = k then true else (s.decAt d i).isSome := by
       simp only [upd2_apply]; split <;> simp
-    -- the phase side, as a function of the new phase of `a`
-    have key : ∀ v : Phase, (∀ j, v.passed j = decide (j ≤ k)) →
-        (if d = a ∧ t' = t then true else (s.decAt d t').isSome) =
-        (if d = a then v else s.phase d).passed i := by
-      intro v hv
-      by_cases hda : d = a
-      · subst hda
-        simp only [true_and, if_true]
-        rw [hv i]
-        by_cases htt : t' = t
-        · subst htt
-          have := nodup_getElem?_inj (hw.trig_nodup d hd) hk hk'
-          subst this
-          simp
-        · have hik : i ≠ k := by
-            intro hik; subst hik; rw [hk] at hk'; exact htt (Option.some.inj hk').symm
-          simp only [htt, if_false]
-          rw [hold, hph]
-          simp only [Phase.passed, decide_eq_decide]; omega
-      · simp only [hda, false_and, if_false]; exact hold
     rcases hh with ⟨hp1, _, rfl⟩ | ⟨hp1, rfl⟩
     · dsimp only
-      rw [hdec]
-      by_cases hdt : d = t
-      · subst hdt
-        have hda : d ≠ a := by omega
-        rw [upd_same]
-        simp only [hda, false_and, if_false]
-        rw [hold, hidle]; rfl
-      · rw [upd_other _ _ _ _ hdt, upd_apply]
-        exact key (.sending k) (fun j => rfl)
+      obtain ⟨h1, hoth⟩ := dec_passed_upd (v := .sending k) hph (fun i => rfl)
+      have hat' : (upd s.phase a (.sending k)) t = .idle := by
+        rw [upd_other _ _ _ _ (by omega)]; exact hidle
+      rw [hdec, passed_upd_queued hat']
+      by_cases hc : d = a ∧ i = k
+      · obtain ⟨rfl, rfl⟩ := hc; simp [Phase.passed]
+      · simp only [hc, if_false]; rw [hoth d i hc]; exact hold
     · dsimp only
-      rw [hdec, upd_apply]
-      apply key (.trig (k + 1))
-      intro j; simp only [Phase.passed, decide_eq_decide]; omega
+      obtain ⟨h1, hoth⟩ := dec_passed_upd (v := .trig (k + 1)) hph
+        (by intro i; simp only [Phase.passed, decide_eq_decide]; omega)
+      rw [hdec]
+      by_cases hc : d = a ∧ i = k
+      · obtain ⟨rfl, rfl⟩ := hc; simp [Phase.passed]
+      · simp only [hc, if_false]; rw [hoth d i hc]; exact hold
 
 theorem inv_idleIff (hw : WF g) (hi : Inv cfg g f s) (hs : step cfg g f s e = some s') :
     ∀ t, t ≤ g.n → (s'.phase t = .idle ↔ 0 < s'.pending t) := by
